@@ -25,7 +25,16 @@ RULE = ("deterministic corpus (one write of every kind 9.999 s / 9.999999 s / 10
         "with re-openings; the committed state is read through a "
         "second connection at every statement boundary and after every call; the opening of a store instance counts as a "
         "flush at the instant its constructor returned (taken from the fake clock, not from the store); thorough adds one "
-        "real-time run with time.sleep(11).  non-trivial = distinct history in which conditional_commit both buffered and flushed")
+        "real-time run with time.sleep(11).  Round 3: every history runs twice - on the storage object, and with the store "
+        "opened by Datastore(SqliteStorage, testing, filepath=.., enable_lazy_commit=..) and every call made through "
+        "Datastore / Bucket (create/update/delete_bucket, buckets, ds[b].insert(event | list) / replace / replace_last / "
+        "delete / get / get_by_id / get_eventcount / metadata; Bucket object new or reused; missing bucket -> KeyError); "
+        "the write is dated at the entry of the API call and judged when the API call returns, by the statement trace "
+        "and by table content (the row with the call's own label is / the deleted id is not in the file as a second "
+        "connection sees it); histories whose previous flush is a read of every kind, Datastore-level calls between "
+        "writes, a second store (another file) alive in the process doing its own flushes and bursts; one black-box run "
+        "per layer with single writes of 10 001 and 15 000 events.  "
+        "non-trivial = distinct history in which conditional_commit both buffered and flushed")
 
 
 def real_time_run(ck, sq, Event):
@@ -62,7 +71,7 @@ def main(argv=None):
     from aw_core.models import Event
 
     ck.run_witnesses(["w08", "w21"])
-    ck.prove(extra_targets=["Bridge/BridgeCommit.v", "Model/CommitDriver.v"],
+    ck.prove(extra_targets=["Bridge/BridgeCommit.v", "Model/CommitDriver.v", "Props/C18api.v", "Model/CommitApiDriver.v"],
              gen_kernels=["commit", "conditional_commit", "sqlite_scripts"])
     have_driver = ck.driver()
 
@@ -77,8 +86,13 @@ def main(argv=None):
     for i in range(40 if quick else 1500):
         profile = ["reopen", "longidle", "reopen"][i % 3]
         histories.append((f"random-{profile}-{i}", ck.rng.random() > 0.05, gen18.random_session(ck.rng, profile)))
-    # every history runs as a session of harness/c18_lib.py (one store instance unless it re-opens)
+    histories += gen18.api_corpus()
+    # every history runs as a session of harness/c18_lib.py (one store instance unless it re-opens),
+    # and it runs twice: on the storage object, and through Datastore / Bucket (the generators are
+    # called again for the second run, so the random ones draw a second history)
+    histories = [(n, lz, h, "storage") for n, lz, h in histories] + [(n + "@api", lz, h, "api") for n, lz, h in histories]
     pending, wire = lib18.run_sessions(ck, sq, Event, histories)
+    lib18.big_writes(ck, sq, Event)
     if have_driver:
         lib18.compare_with_model(ck, "C18", pending, wire)
     if not quick:
@@ -95,6 +109,9 @@ def main(argv=None):
         "nothing flushes a buffered write when no further call arrives (there is no timer): the age bound is relative to "
         "the last flush, as the property text says, not to the crash instant",
         "SQLite transaction semantics as for C06 (oracle, sampled through the second connection)",
+        "API layer: 'an event write issued at t' is one call of a Datastore / Bucket method, issued when the method is "
+        "entered; 'the previous flush' is the last instant BEFORE that entry at which nothing was pending (what the "
+        "wrapper does between entry and return is part of the write, never a previous flush)",
     ]
     ck.trusted += ["translate/k_commit.py (tie B: commit, conditional_commit incl. the operand order of the age test, scripts)"]
     return ck.finish(RULE)
